@@ -32,7 +32,7 @@ def make_model(seed, tier):
     r = random.Random(seed)
     knobs = gen.Knobs(items=r.choice([3, 4, 5]), members=r.choice([2, 4]), ns_depth=r.choice([1, 2, 3]), inst_len=3)
     g = gen.WildGen(seed, knobs, multiline_defaults=False, typedefs=True, typedef_same_ns=True, param_use=0.3, this_use=0.05,
-                    class_template_p=0.4, includes=False, enum_namesakes=0.25)
+                    class_template_p=0.4, includes=False, enum_namesakes=0.25, serialize_p=0.3)
     mod = g.module()
     if r.random() < 0.4:
         mod = add_namesake(mod, r)
@@ -136,13 +136,22 @@ def delete_X(mod, x):
 
 
 # ------------------------------------------------------------------ observations
+OPT = {'ser': False}     # serialization switch of the current case (both generators)
+
+
 def py_obs(text, ignore):
-    out = tool.pybind_text(text, ignore=ignore)
+    out = tool.pybind_text(text, ignore=ignore, ser=OPT['ser'])
     return out, pyinv.blocks(out)
 
 
+def exports(text):
+    """the serialization export section of a pybind module: BOOST_CLASS_EXPORT lines and their typedefs"""
+    return [l.replace(' ', '') for l in text.split('\n') if l.startswith('BOOST_CLASS_EXPORT') or
+            (l.startswith('typedef ') and l.rstrip().endswith(';'))]
+
+
 def ml_obs(text, ignore):
-    tree, _ = tool.matlab_tree(text, ignore=ignore)
+    tree, _ = tool.matlab_tree(text, ignore=ignore, ser=OPT['ser'])
     files, routines, pre = {}, [], ''
     for path, content in tree.items():
         if path.endswith('_wrapper.cpp'):
@@ -192,8 +201,16 @@ def check_triple(mod, x, which, acc):
         extra = [k for k in B if k not in A]
         if extra:
             vs.append({'what': 'ignoring a class added blocks', 'blocks': repr(extra[:3])})
+        # serialization exports: those of X go, the others stay
+        xc = x['cpp'].replace(' ', '')
+        xnames = {xc, re.sub('[,:<> ]', '', xc)}
+        ea, eb = exports(A_text), exports(B_text)
+        acc.count('export_lines_compared', len(ea))
+        if eb != [l for l in ea if not any(l == 'BOOST_CLASS_EXPORT(%s)' % n or l == 'typedef%s%s;' % (xc, n) for n in xnames)]:
+            vs.append({'what': 'serialization exports with the class ignored are not the exports without it minus its own',
+                       'without_ignore': ea[:6], 'with_ignore': eb[:6], 'class': x['cpp']})
         if deleted is not None and len(same_cpp) == 1:
-            C_text = tool.pybind_text(render.render(deleted))
+            C_text = tool.pybind_text(render.render(deleted), ser=OPT['ser'])
             acc.count('ignore_vs_delete')
             if C_text != B_text:
                 i = next((i for i, (p, q) in enumerate(zip(B_text, C_text)) if p != q), min(len(B_text), len(C_text)))
@@ -264,8 +281,8 @@ def check_unrelated(mod, which, r, acc):
     vs = []
     acc.count('unrelated_deletions')
     if which == 'pybind':
-        A = pyinv.blocks(tool.pybind_text(ta))
-        B = pyinv.blocks(tool.pybind_text(tb))
+        A = pyinv.blocks(tool.pybind_text(ta, ser=OPT['ser']))
+        B = pyinv.blocks(tool.pybind_text(tb, ser=OPT['ser']))
         # ordinal part of the key may shift for equal-named functions: compare by multiset of texts
         sa = sorted(v for v in A.values())
         sb = sorted(v for v in B.values())
@@ -296,6 +313,8 @@ def check_unrelated(mod, which, r, acc):
 def run_case(seed, tier, acc, only=None):
     mod = make_model(seed, tier)
     r = random.Random(seed ^ 0xC15)
+    OPT['ser'] = random.Random(seed ^ 0x5E7).random() < 0.5
+    acc.count('opt:ser%d' % OPT['ser'])
     cands = candidates(mod)
     out = []
     picks = []
